@@ -109,6 +109,57 @@ fn render(alg: Algorithm, as_str: bool, old: &[u8], new: &[u8], r: Render, repai
     res.map(|(writer, display, short, api_mismatch)| Rendered { writer, display, short, swaps, api_mismatch })
 }
 
+/// One formatter object used twice: render with `r1`, reconfigure to `r2`, render again.  The
+/// second rendering must be exactly what a fresh formatter configured with `r2` produces.
+fn reuse_mismatch(alg: Algorithm, as_str: bool, old: &[u8], new: &[u8], r1: Render, r2: Render) -> Result<Option<String>, String> {
+    guard(|| {
+        let mut c = TextDiff::configure();
+        c.algorithm(alg);
+        macro_rules! go {
+            ($d:expr) => {{
+                let d = $d;
+                let mut u = d.unified_diff();
+                if r2.header {
+                    u.header(HDR.0, HDR.1);
+                }
+                u.context_radius(r1.radius).missing_newline_hint(r1.hint);
+                let first = u.to_string();
+                let hunks_first = u.iter_hunks().count();
+                u.context_radius(r2.radius).missing_newline_hint(r2.hint);
+                let second = u.to_string();
+                let mut second_w = Vec::new();
+                u.to_writer(&mut second_w).unwrap();
+                let hunks_second = u.iter_hunks().count();
+                let mut f = d.unified_diff();
+                if r2.header {
+                    f.header(HDR.0, HDR.1);
+                }
+                f.context_radius(r2.radius).missing_newline_hint(r2.hint);
+                let fresh = f.to_string();
+                let mut fresh_w = Vec::new();
+                f.to_writer(&mut fresh_w).unwrap();
+                let hunks_fresh = f.iter_hunks().count();
+                let _ = (first, hunks_first);
+                if second != fresh || second_w != fresh_w || hunks_second != hunks_fresh {
+                    Some(format!(
+                        "a formatter first rendered with radius {} / hint {} and then reconfigured to radius {} / hint {} renders {} ({} hunks) but a fresh formatter renders {} ({} hunks)",
+                        r1.radius, r1.hint, r2.radius, r2.hint, show(&second_w), hunks_second, show(&fresh_w), hunks_fresh
+                    ))
+                } else {
+                    None
+                }
+            }};
+        }
+        if as_str {
+            let so = std::str::from_utf8(old).unwrap();
+            let sn = std::str::from_utf8(new).unwrap();
+            go!(c.diff_lines(so, sn))
+        } else {
+            go!(c.diff_lines(old, new))
+        }
+    })
+}
+
 fn strict_failures(old: &[u8], new: &[u8], bytes: &[u8], r: Render) -> Vec<(&'static str, String)> {
     if old == new {
         return if bytes.is_empty() {
@@ -164,6 +215,9 @@ fn case(cfg: &Config, alg: Algorithm, old: &[u8], new: &[u8], renders: &[Render]
                 Ok(rd) => rd,
             };
             out.count_n("rendered_bytes", rd.writer.len() as u64);
+            if rd.writer.len() >= 65536 {
+                out.count("renderings_of_64KiB_or_more");
+            }
             out.count_n("hunk_headers_observed", patch_ref::physical_lines(&rd.writer).iter().filter(|l| l.starts_with(b"@@ -")).count() as u64);
             // writer vs Display vs short-writing sink
             if valid {
@@ -206,6 +260,20 @@ fn case(cfg: &Config, alg: Algorithm, old: &[u8], new: &[u8], renders: &[Render]
                 for (code, msg) in &fails {
                     out.violation(code, format!("{} | rendered {} | swaps in this diff: {} | {}", msg, show(&rd.writer), rd.swaps, ctx()));
                 }
+            }
+        }
+    }
+    // formatter objects are reusable: reconfiguring after a rendering must take effect
+    for as_str in [false, true] {
+        if as_str && !valid {
+            continue;
+        }
+        for w in renders.windows(2) {
+            out.eval();
+            match reuse_mismatch(alg, as_str, old, new, w[0], w[1]) {
+                Err(p) => out.violation("panic", format!("re-used formatter panicked: {} | old={} new={}", p, show(old), show(new))),
+                Ok(Some(m)) => out.violation("patch.reused_formatter", format!("{} | alg={} type={} old={} new={}", m, alg_name(alg), if as_str { "str" } else { "[u8]" }, show(old), show(new))),
+                Ok(None) => out.count("formatter_reuse_sequences_verified"),
             }
         }
     }
@@ -280,6 +348,50 @@ pub fn families() -> Vec<Box<dyn Family>> {
                 if a != b {
                     out.nontrivial(&(alg_name(alg), &a, &b));
                 }
+                case(cfg, alg, &a, &b, &renders, out);
+            },
+        ),
+        family(
+            "large_outputs",
+            "renderings of 64 KiB and more: 6000..12000-line texts (thorough 40000) with up to 40 scattered edits rendered with radius 3 / 50 / usize::MAX (whole file as one hunk), header on/off — to_writer vs Display vs short-writing sink + strict application",
+            false,
+            1,
+            |cfg| if cfg.tiny { 1 } else { cfg.tier.pick(8, 40) },
+            |idx, cfg, out| {
+                let mut rng = Rng::for_case(cfg.seed, "c05.large_outputs", idx);
+                let n = if cfg.tiny { 8 } else { rng.range(6000, cfg.tier.pick(12_000, 40_000)) };
+                let (a, b) = text_gen::long_text_pair(&mut rng, n, 40);
+                let alg = ALGS[rng.below(2)];
+                let renders = [
+                    Render { radius: 3, header: true, hint: true },
+                    Render { radius: 50, header: false, hint: true },
+                    Render { radius: usize::MAX, header: idx % 2 == 0, hint: true },
+                ];
+                out.sample(|| format!("alg={} {} lines", alg_name(alg), n));
+                if a != b {
+                    out.nontrivial(&(alg_name(alg), &a, &b));
+                }
+                out.count("large_output_cases");
+                case(cfg, alg, &a, &b, &renders, out);
+            },
+        ),
+        family(
+            "distinct_boundary",
+            "texts of n DISTINCT lines with n just below 256 / 1024 / 4096 / 65536 where a block is swapped for fresh lines so that the distinct lines of both sides together cross the boundary x {Myers, Patience} x 2 renderings",
+            true,
+            1,
+            |cfg| if cfg.tiny { 1 } else { 8 },
+            |idx, cfg, out| {
+                let mut rng = Rng::for_case(cfg.seed, "c05.distinct_boundary", idx);
+                let bound = if cfg.tiny { 8 } else { [256usize, 1024, 4096, 65536][(idx % 4) as usize] };
+                let n = bound - 1 - rng.below(bound.min(400) / 4 + 1);
+                let fresh = rng.range(bound - n + 1, (bound - n + 1) + 300);
+                let drop = rng.below(100.min(n));
+                let (a, b) = text_gen::distinct_lines_pair(&mut rng, n, drop, fresh);
+                let alg = ALGS[(idx / 4 % 2) as usize];
+                out.sample(|| format!("alg={} {} distinct old lines, {} fresh lines (boundary {})", alg_name(alg), n, fresh, bound));
+                out.nontrivial(&(alg_name(alg), &a, &b));
+                let renders = [Render { radius: 3, header: true, hint: true }, Render { radius: 0, header: false, hint: true }];
                 case(cfg, alg, &a, &b, &renders, out);
             },
         ),
